@@ -491,6 +491,12 @@ class Interp:
             if isinstance(item, str):
                 return item in container
             raise Unsupported('substring test on symbolic string')
+        if isinstance(container, OpaqueStr) and isinstance(item, (str, OpaqueStr)):
+            # substring test between strings whose text is not tracked: either outcome is possible
+            # (except the reflexive case); an over-approximation, so a refutation built on it is replayed natively
+            if item is container:
+                return True
+            return self.e.bool('substring_test')
         if hasattr(container, 'sym_contains'):
             return container.sym_contains(self, item)
         if isinstance(container, View):
@@ -649,6 +655,13 @@ class Interp:
                                             (not mod or dotted.endswith(f'{mod}.{nm}'))):
                 if rel.endswith('__init__.py') or rel.endswith(f'/{nm}.py'):
                     if nm not in self.repo.classes and nm not in self.repo.functions:
+                        return ModuleRef(dotted)
+                    # a class/function of the same name exists: the package attribute is the sub-module
+                    # unless the package __init__ itself binds that name
+                    pkg = dotted[:-(len(nm) + 1)].replace('.', '/') + '/__init__.py'
+                    pm = self.repo.modules.get(pkg)
+                    if pm is not None and nm not in pm.imports and nm not in pm.classes \
+                            and nm not in pm.functions and nm not in pm.consts:
                         return ModuleRef(dotted)
         c = self.repo.get_class(nm)
         if c is not None:
@@ -1039,12 +1052,20 @@ class Interp:
         return OpaqueStr(parts)
 
     def e_List(self, n, env):
-        out = []
+        out, acc = [], None
         for el in n.elts:
             if isinstance(el, ast.Starred):
-                out.extend(self.iter_concrete(self.eval(el.value, env), el))
+                sv = self.eval(el.value, env)
+                if isinstance(sv, View) and not isinstance(sv.length(), int) and hasattr(sv, 'sym_binop'):
+                    # [a, *symbolic, b]  ==  [a] + symbolic + [b]
+                    acc = self.binop('+', self.binop('+', acc, out) if acc is not None else out, sv)
+                    out = []
+                    continue
+                out.extend(self.iter_concrete(sv, el))
             else:
                 out.append(self.eval(el, env))
+        if acc is not None:
+            return self.binop('+', acc, out) if out else acc
         return out
 
     def e_Tuple(self, n, env):
@@ -1066,7 +1087,22 @@ class Interp:
                     continue
                 self.unsupported(n, '** of symbolic dict')
             kk = self.eval(k, env)
-            d[kk] = self.eval(v, env)
+            vv = self.eval(v, env)
+            if not is_concrete(kk):
+                # a later key that may equal an earlier symbolic one overrides it, as in Python
+                for ek in list(d):
+                    if ek is kk or is_concrete(ek):
+                        continue
+                    try:
+                        same = self.eq(ek, kk)
+                    except Unsupported:
+                        continue
+                    if same is False:
+                        continue
+                    if same is True or self.e.branch(as_bool(same), 'dict literal: repeated key'):
+                        kk = ek
+                        break
+            d[kk] = vv
         return d
 
     def e_Yield(self, n, env):
@@ -1871,7 +1907,8 @@ class Interp:
                     return h(i, v)
             raise Unsupported('float()')
         def bi_frozenset(i, a, k):
-            return frozenset(bi_set(i, a, k))
+            r = bi_set(i, a, k)
+            return frozenset(r) if isinstance(r, (set, frozenset, list, tuple)) else r
         def bi_open(i, a, k):
             if i.reg:
                 h = i.reg.external_function('open')
